@@ -4,6 +4,7 @@ package e2
 import (
 	"encoding/json"
 	"math"
+	"strconv"
 	"time"
 
 	"github.com/confluentinc/confluent-kafka-go/kafka"
@@ -65,6 +66,23 @@ func genRetry(r *sx.Rng) sx.Tree {
 		}
 	}
 	return sx.T(sx.L(7), base.At(0), base.At(1), sx.T(atts...), sx.L(cancel))
+}
+
+// effectiveMaxLag: math.MaxInt64 in a case stands for "maxpartitionlag is not configured"; what the source then uses is
+// whatever the real checkConfig puts into the configuration map (the model: no limit).
+func effectiveMaxLag(maxlag int64) int64 {
+	if maxlag != math.MaxInt64 {
+		return maxlag
+	}
+	cfg := map[string]string{"brokers": "127.0.0.1:1", "consumergroup": "verif", "topic": "t", "buffersize": "10"}
+	if err := (&kafkaconsumer.KafkaConsumer{}).CheckConfigV(cfg); err != nil {
+		return maxlag
+	}
+	v, err := strconv.ParseInt(cfg["maxpartitionlag"], 10, 64)
+	if err != nil {
+		return maxlag
+	}
+	return v
 }
 
 // Gen generates one case.
@@ -248,7 +266,7 @@ func runRetry(in sx.Tree) sx.Tree {
 		rc = kafkaconsumer.NewRecoveryConsumerV(fake.NewConsumer(), topic, out, int(maxrec), 1000, ctx)
 		rc.SetAssignedPartitions([]kafka.TopicPartition{{Topic: &topic, Partition: sentinelPartition}})
 	}
-	k := kafkaconsumer.NewKafkaConsumerV(main, topic, out, int(maxlag), rc, ctx)
+	k := kafkaconsumer.NewKafkaConsumerV(main, topic, out, int(effectiveMaxLag(maxlag)), rc, ctx)
 	done := make(chan struct{})
 	go func() {
 		k.RetryAssignPartitionsV(parts)
@@ -322,7 +340,7 @@ func Run(in sx.Tree) sx.Tree {
 		rc = kafkaconsumer.NewRecoveryConsumerV(fake.NewConsumer(), topic, out, int(maxrec), 1000, ctx)
 		rc.SetAssignedPartitions([]kafka.TopicPartition{{Topic: &topic, Partition: sentinelPartition}})
 	}
-	k := kafkaconsumer.NewKafkaConsumerV(main, topic, out, int(maxlag), rc, ctx)
+	k := kafkaconsumer.NewKafkaConsumerV(main, topic, out, int(effectiveMaxLag(maxlag)), rc, ctx)
 	err := k.AssignPartitionsV(parts)
 
 	assigned := sx.T()
